@@ -62,7 +62,7 @@ def flights_of(caps, side, first=None, extra=None):
         inner = a.get("s_inner", []) if side == "s" else []
         inner = (inner + [[]] * len(a[side]))[:len(a[side])]
         out.append({"case": name, "side": side, "msgs": a[side], "msgs2": b[side], "other": a[o], "from": (first or {}).get(name, 1), "inner": inner,
-                    "focus": int((extra or {}).get(name, {}).get("focus", 0)),
+                    "focus": int((extra or {}).get(name, {}).get("focus", 0)), "lite": bool((extra or {}).get(name, {}).get("lite")),
                     "recs": bool((extra or {}).get(name, {}).get("recs")), "post": int((extra or {}).get(name, {}).get("post", 0)),
                     "myrecs": a.get(side + "_recs", [])})
     return out
@@ -70,7 +70,7 @@ def flights_of(caps, side, first=None, extra=None):
 
 def rec_flights(caps):
     """MC input for C07: the first record a client wrote (a ClientHello record)"""
-    return [{"case": name, "side": "rec", "msgs": [a["rec0"]], "msgs2": [a["rec0"]], "other": [], "from": 1, "inner": [[]], "recs": False, "post": 0, "myrecs": [], "focus": 0} for name, (a, b) in caps.items()]
+    return [{"case": name, "side": "rec", "msgs": [a["rec0"]], "msgs2": [a["rec0"]], "other": [], "from": 1, "inner": [[]], "recs": False, "post": 0, "myrecs": [], "focus": 0, "lite": False} for name, (a, b) in caps.items()]
 
 
 # ---------------------------------------------------------------- TLC: enumeration
@@ -248,6 +248,8 @@ def run_connection_family(ctx, pid, side, cases, classes=None, inserts=True, dea
                 for kk, vv in v.items():
                     total[k][kk] = total[k].get(kk, 0) + vv if isinstance(vv, int) and k.startswith("outcomes_of") else vv
     if not rp:
+        if not {"panic", "binding", "late"} <= set(total.get("canaries_rejected", [])):
+            raise vlib.Machinery("%s: the binding canaries (panic / digest / late) were never exercised: %r" % (pid, total.get("canaries_rejected")))
         want = set(classes or ALL_CLASSES) | ({"insert"} if inserts else set())
         want |= ({"record"} if any(c.get("recs") for c in cases) else set()) | ({"post"} if any(c.get("post") for c in cases) else set())
         if want - set(total["classes"]) - {"oddlist"}:
@@ -261,8 +263,8 @@ def _connection_batch(ctx, pid, side, cases, classes, inserts, deadline_ms, btag
     classes = classes or ALL_CLASSES
     orig_cases = {c["name"]: c for c in cases}
     first = {c["name"]: c.get("from", 1) for c in cases}
-    extra = {c["name"]: {"recs": c.get("recs", False), "post": c.get("post", 0), "focus": c.get("focus", 0)} for c in cases}
-    cases = [{k: v for k, v in c.items() if k not in ("from", "recs", "post", "focus")} for c in cases]
+    extra = {c["name"]: {"recs": c.get("recs", False), "post": c.get("post", 0), "focus": c.get("focus", 0), "lite": c.get("lite", False)} for c in cases}
+    cases = [{k: v for k, v in c.items() if k not in ("from", "recs", "post", "focus", "lite")} for c in cases]
     sut = "client" if side == "s" else "server"
     pki = mkpki(ctx)
     caps, skipped = capture(ctx, pki, cases)
@@ -376,13 +378,13 @@ def _connection_batch(ctx, pid, side, cases, classes, inserts, deadline_ms, btag
     # 4. binding canary: a good row with one logged field corrupted must be rejected
     rejsids = {x["sid"] for x, w in rejected}
     good = [r for r in rows if r["t"] == "conn" and r["op"] != "none" and r["sid"] not in rejsids]
-    if not good:
-        raise vlib.Machinery("%s: no accepted mutated row to build the binding canary from" % pid)
-    g = good[len(good) // 2]
-    c1 = dict(strip([g])[0]); c1[sut] = dict(c1[sut], outcome="panic")
-    c2 = dict(strip([g])[0]); c2["mut_sum"] = (c2["mut_sum"] + 1) % 1000003
-    c3 = dict(strip([g])[0]); c3[sut] = dict(c3[sut], elapsed_ms=c3["deadline_ms"] + 5000)
-    canaries, expect = [c1, c2, c3], ["panic", "binding", "late"]
+    canaries, expect = [], []
+    if good:    # (a batch of record-only / focus-only cases may have none; the run as a whole must have had some)
+        g = good[len(good) // 2]
+        c1 = dict(strip([g])[0]); c1[sut] = dict(c1[sut], outcome="panic")
+        c2 = dict(strip([g])[0]); c2["mut_sum"] = (c2["mut_sum"] + 1) % 1000003
+        c3 = dict(strip([g])[0]); c3[sut] = dict(c3[sut], elapsed_ms=c3["deadline_ms"] + 5000)
+        canaries, expect = [c1, c2, c3], ["panic", "binding", "late"]
     for kind, how in (("post", "hang"), ("rec", "binding")):
         gk = [r for r in rows if r["t"] == kind and r["sid"] not in rejsids]
         if gk:
@@ -397,11 +399,12 @@ def _connection_batch(ctx, pid, side, cases, classes, inserts, deadline_ms, btag
         canaries.append(c4); expect.append("alloc")
     for i, ck in enumerate(canaries):
         ck["sid"] = -1 - i
-    crej = validate(ctx, canaries, skels, rcaps, pid.lower() + "k", common=strip(abase))[0]
-    ctx.traces -= len(canaries)
-    got = {r["sid"]: w for r, w in crej}
-    if [got.get(-1 - i) for i in range(len(canaries))] != expect:
-        raise vlib.Machinery("%s: binding canaries not rejected as expected: %r vs %r" % (pid, got, expect))
+    if canaries:
+        crej = validate(ctx, canaries, skels, rcaps, pid.lower() + "k", common=strip(abase))[0]
+        ctx.traces -= len(canaries)
+        got = {r["sid"]: w for r, w in crej}
+        if [got.get(-1 - i) for i in range(len(canaries))] != expect:
+            raise vlib.Machinery("%s: binding canaries not rejected as expected: %r vs %r" % (pid, got, expect))
 
     # 5. vacuity: every class and every protocol state must have been executed, both outcomes observed
     outc = {}
@@ -431,7 +434,7 @@ def _connection_batch(ctx, pid, side, cases, classes, inserts, deadline_ms, btag
             "rule": "scenarios = TLC-enumerated (receiver state x message kind x grammar node x mutation operator) over the captured flights of %d case(s); "
                     "distinct = different (state, kind, node path, operator) tuples executed on the real %s" % (len(cases), sut),
             "cases": [c["name"] for c in cases], "skipped_cases": skipped, "messages_not_mutated_unstable_layout": unmutable, "protocol_states": states, "message_kinds": kinds,
-            "classes": sorted(seen_cls), "raw_record_scenarios": sum(1 for r in mut_rows if r["t"] == "rec"),
+            "classes": sorted(seen_cls), "canaries_rejected": sorted(set(expect)), "raw_record_scenarios": sum(1 for r in mut_rows if r["t"] == "rec"),
             "post_handshake_scenarios": sum(1 for r in mut_rows if r["t"] == "post"), "outcomes_of_" + sut: outc, "mutated_but_ok": ok_mut, "waited_until_deadline": waited,
             "allocation_runs": len(ameas), "allocation_baseline_kb": {r["case"]: r["alloc_kb"] for r in abase},
             "allocation_max_kb": max([r["alloc_kb"] for r in ameas] or [0]), "deadline_ms": deadline_ms,
